@@ -1,20 +1,613 @@
+//! C05 — expiry decision: removed exactly when now >= `to` at the configured offset.
+//!
+//! Lease logic under a simulated clock: a fixed source of time-limited blocks is
+//! cleaned by a history of simulated CLI executions at non-decreasing instants on
+//! the boundary lattice of the expiry instants, each either reading the simulated
+//! clock (frozen or advancing per reading) or given the instant explicitly in some
+//! zone while clock and TZ hold decoys.  The oracle is a chrono-free reference.
+
 use crate::common::*;
-use crate::doc::Doc;
+use crate::doc::{self, AttrVal, Doc, Elem, GenParams, Kind, Node};
+use crate::reftime::{self, parse_offset_canonical, parse_to_canonical};
+use crate::rng::Rng;
+use crate::world::{execute, ClockSpec, Exec, Fs, IoPlan, Status, StdinSpec};
 use serde::{Deserialize, Serialize};
+use std::collections::{BTreeMap, BTreeSet};
+
+#[derive(Clone, Debug, Serialize, Deserialize, PartialEq)]
+pub enum RunTime {
+    Clock { tick_ns: i64 },
+    Explicit { zone_off: i64, zulu: bool, decoy: ClockSpec },
+}
+
+#[derive(Clone, Debug, Serialize, Deserialize, PartialEq)]
+pub struct Run {
+    pub now: (i64, i64),
+    pub time: RunTime,
+    #[serde(default)]
+    pub env: BTreeMap<String, String>,
+    #[serde(default)]
+    pub io: IoPlan,
+    pub via_stdin: bool,
+}
 
 #[derive(Clone, Debug, Serialize, Deserialize, PartialEq)]
 pub struct C05Scn {
     pub doc: Doc,
+    /// None = option omitted (documented default +00:00)
+    pub offset: Option<String>,
+    pub runs: Vec<Run>,
 }
-pub fn generate(_seed: u64) -> C05Scn {
-    unimplemented!()
+
+#[derive(Clone, Copy, Debug, PartialEq)]
+pub enum Class {
+    /// canonical spelling: the reference decides (payload: seconds)
+    Canonical(i64),
+    /// an enumerated malformed class: must never make an element ready
+    Invalid,
+    /// outside both: judged only by monotonicity and environment-independence
+    Grey,
 }
-pub fn run(_s: &C05Scn, _stats: &mut RunStats) -> Option<Violation> {
+
+pub fn classify_to(a: &Option<AttrVal>) -> Class {
+    let s = match a {
+        None | Some(AttrVal::Bare) => return Class::Invalid, // missing / valueless
+        Some(AttrVal::Val(s)) => s.as_str(),
+    };
+    if let Some(w) = parse_to_canonical(s) {
+        return Class::Canonical(w);
+    }
+    if s.is_empty() || !s.bytes().any(|b| b.is_ascii_digit()) {
+        return Class::Invalid; // empty / words
+    }
+    let b = s.as_bytes();
+    let digits_at = |idx: &[usize]| idx.iter().all(|i| b.get(*i).map_or(false, |c| c.is_ascii_digit()));
+    const D: [usize; 14] = [0, 1, 2, 3, 5, 6, 8, 9, 11, 12, 14, 15, 17, 18];
+    if b.len() == 19 && digits_at(&D) {
+        let seps = [b[4], b[7], b[10], b[13], b[16]];
+        if seps == [b'-', b'-', b' ', b':', b':'] {
+            // canonical shape, out-of-range field(s); second 60 alone is chrono's leap second: grey
+            let with_59 = format!("{}59", &s[..17]);
+            if &s[17..] == "60" && parse_to_canonical(&with_59).is_some() {
+                return Class::Grey;
+            }
+            return Class::Invalid;
+        }
+        let date_ok = seps[0] == seps[1] && matches!(seps[0], b'-' | b'/' | b'.');
+        let mid_ok = matches!(seps[2], b' ' | b'T' | b'_');
+        let time_ok = seps[3] == seps[4] && matches!(seps[3], b':' | b'.');
+        if date_ok && mid_ok && time_ok {
+            return Class::Invalid; // other separators
+        }
+        return Class::Grey;
+    }
+    if (b.len() == 10 && digits_at(&D[..8]) && b[4] == b'-' && b[7] == b'-')
+        || (b.len() == 16 && digits_at(&D[..12]) && b[4] == b'-' && b[7] == b'-' && b[10] == b' ' && b[13] == b':')
+    {
+        return Class::Invalid; // missing time part / missing seconds
+    }
+    if b.len() > 19 && s.is_char_boundary(19) && parse_to_canonical(&s[..19]).is_some() {
+        let rest = s[19..].trim_start();
+        let zone = rest == "Z" || rest == "UTC" || rest == "JST" || parse_offset_canonical(rest).is_some();
+        if zone {
+            return Class::Invalid; // trailing zone
+        }
+    }
+    Class::Grey
+}
+
+pub fn classify_offset(s: &str) -> Class {
+    if let Some(o) = parse_offset_canonical(s) {
+        return Class::Canonical(o);
+    }
+    let b = s.as_bytes();
+    match b.first() {
+        None => Class::Invalid, // empty
+        Some(b'+') | Some(b'-') => {
+            if b.len() < 2 || !b[1].is_ascii_digit() {
+                Class::Invalid // sign without digits
+            } else {
+                Class::Grey
+            }
+        }
+        Some(c) if c.is_ascii_alphanumeric() && *c != b'Z' && *c != b'z' => Class::Invalid, // no sign: names, bare digits
+        _ => Class::Grey,
+    }
+}
+
+const TO_INVALID: &[&str] = &[
+    "",
+    "never",
+    "2024/03/01 00:00:00",
+    "2024-03-01T00:00:00",
+    "2024.03.01 00:00:00",
+    "2024-03-01 00.00.00",
+    "2024-03-01_00:00:00",
+    "2024-03-01",
+    "2024-03-01 00:00",
+    "2024-13-01 00:00:00",
+    "2024-00-10 00:00:00",
+    "2024-03-32 00:00:00",
+    "2024-02-30 00:00:00",
+    "2023-02-29 00:00:00",
+    "2024-03-01 24:00:00",
+    "2024-03-01 00:60:00",
+    "2024-03-01 00:00:61",
+    "2024-03-01 00:00:00Z",
+    "2024-03-01 00:00:00 Z",
+    "2024-03-01 00:00:00+09:00",
+    "2024-03-01 00:00:00 +0900",
+    "2024-03-01 00:00:00 UTC",
+    "1970-01-01 00:00:00 -00:00",
+];
+
+const TO_GREY: &[&str] = &[
+    "2024-3-1 0:0:0",
+    "2024-03-01  00:00:00",
+    " 2024-03-01 00:00:00",
+    "2024-03-01 00:00:00 ",
+    "2024-02-29 23:59:60",
+    "+2024-03-01 00:00:00",
+    "02024-03-01 00:00:00",
+    "24-03-01 00:00:00",
+    "2024-03-01 00:00:00.5",
+];
+
+const OFF_INVALID: &[&str] = &["", "UTC", "JST", "abc", "0900", "09:00", "+", "-", "+ab:cd", "+:00"];
+const OFF_GREY: &[&str] = &["+9:00", "+24:00", "+0960", "+09", "\u{2212}09:00", "+09:00 ", " +09:00", "Z", "+09 00", "+99:00", "+090"];
+
+/// Wall-clock bases around which `to` values cluster (day / month / year / leap-day boundaries).
+const BASES: &[&str] = &[
+    "2024-03-01 00:00:00",
+    "2024-02-29 00:00:00",
+    "2024-02-29 23:59:59",
+    "2023-03-01 00:00:00",
+    "2024-12-31 23:59:59",
+    "2025-01-01 00:00:00",
+    "2024-07-01 00:00:00",
+    "2024-06-15 12:30:00",
+    "2000-02-29 12:00:00",
+    "2100-03-01 00:00:00",
+    "9998-12-31 23:59:59",
+    "1971-01-01 00:00:00",
+];
+
+pub fn generate(seed: u64) -> C05Scn {
+    let mut rng = Rng::new(seed);
+    // --- offset ---------------------------------------------------------------
+    let (offset, off_class): (Option<String>, Class) = match rng.below(20) {
+        0 => (None, Class::Canonical(0)),
+        1 => {
+            let s = rng.pick(OFF_INVALID).to_string();
+            let c = classify_offset(&s);
+            (Some(s), c)
+        }
+        2 => {
+            let s = rng.pick(OFF_GREY).to_string();
+            let c = classify_offset(&s);
+            (Some(s), c)
+        }
+        _ => {
+            let secs = rng.range(-48, 56) * 900;
+            let s = reftime::format_offset(secs, rng.chance(1, 2));
+            (Some(s), Class::Canonical(secs))
+        }
+    };
+    let off_secs = if let Class::Canonical(o) = off_class { o } else { 0 };
+    // --- `to` pool ---------------------------------------------------------------
+    let base = parse_to_canonical(*rng.pick(BASES)).unwrap();
+    let deltas: &[i64] = &[-2, -1, 0, 0, 1, 2, 60, -60, 86_400, -86_400, 3_600 * 9];
+    let mut tos: Vec<Option<AttrVal>> = Vec::new();
+    let mut walls: Vec<i64> = Vec::new();
+    for _ in 0..6 {
+        let w = base + *rng.pick(deltas);
+        if w >= 86_400 * 2 && w < 253_402_300_800 - 86_400 * 2 {
+            walls.push(w);
+            tos.push(Some(AttrVal::Val(reftime::format_wall(w))));
+            tos.push(Some(AttrVal::Val(reftime::format_wall(w))));
+        }
+    }
+    if walls.is_empty() {
+        walls.push(base);
+        tos.push(Some(AttrVal::Val(reftime::format_wall(base))));
+    }
+    tos.push(Some(AttrVal::Val(rng.pick(TO_INVALID).to_string())));
+    tos.push(Some(AttrVal::Val(rng.pick(TO_INVALID).to_string())));
+    tos.push(Some(AttrVal::Val(rng.pick(TO_GREY).to_string())));
+    tos.push(None);
+    tos.push(Some(AttrVal::Bare));
+    let names = [None];
+    let p = GenParams {
+        max_elems: 9,
+        max_depth: 2,
+        tos: &tos,
+        names: &names,
+        allow_unwrap: false,
+        allow_inline: true,
+        allow_multiline_tag: true,
+        allow_other: false,
+        allow_skip: false,
+        tl_eighths: 8,
+        default_config_eighths: 5,
+    };
+    let mut doc = doc::generate(&mut rng, &p);
+    crate::c19::avoid_known_c01_panic(&mut doc);
+    // quotes: a `to` value never contains quotes, fine for both quote styles
+
+    // --- history -----------------------------------------------------------------
+    // expiry instants of the canonical elements (if the offset is canonical)
+    let mut instants: Vec<i64> = walls.iter().map(|w| w - off_secs).collect();
+    instants.sort();
+    instants.dedup();
+    let n_runs = 3 + rng.usize(6);
+    let mut runs = Vec::new();
+    let lo = instants[0];
+    let mut t: (i64, i64) = match rng.below(3) {
+        0 => (lo - 86_400 * 2, 0),
+        1 => (lo - 2, rng.range(0, 999_999_999)),
+        _ => (lo - 1, 0),
+    };
+    let mut env = gen_env(&mut rng);
+    for _ in 0..n_runs {
+        match rng.below(10) {
+            0 => {} // duplicate instant (same instant, another environment / spelling)
+            1 => t = (t.0 + rng.range(1, 86_400 * 3), rng.range(0, 999_999_999)),
+            2 => t = (t.0 + rng.range(1, 3), *rng.pick(&[0i64, 1, 999_999_999])),
+            _ => {
+                // next lattice point at or after t
+                let mut lattice: Vec<(i64, i64)> = Vec::new();
+                for e in &instants {
+                    lattice.extend_from_slice(&[(e - 1, 0), (e - 1, 999_999_999), (*e, 0), (*e, 1), (e + 1, 0)]);
+                }
+                lattice.sort();
+                lattice.dedup();
+                let ahead: Vec<(i64, i64)> = lattice.into_iter().filter(|x| *x >= t).collect();
+                if !ahead.is_empty() {
+                    let k = rng.usize(ahead.len().min(4));
+                    t = ahead[k];
+                }
+            }
+        }
+        if t.0 < 0 {
+            t = (0, 0);
+        }
+        if rng.chance(1, 3) {
+            env = gen_env(&mut rng);
+        }
+        let zone_off = rng.range(-48, 56) * 900;
+        let time = if rng.chance(1, 2) || !reftime::fits_rfc3339(t.0, zone_off) {
+            RunTime::Clock { tick_ns: *rng.pick(&[0i64, 0, 0, 1, 1, 500_000_000, 1_000_000_000]) }
+        } else {
+            RunTime::Explicit {
+                zone_off,
+                zulu: rng.chance(1, 2),
+                decoy: ClockSpec { sec: *rng.pick(&[0i64, lo - 5, lo + 5, 4_102_444_800, 253_402_300_799]).max(&0), nsec: rng.range(0, 999_999_999), tick_ns: 0 },
+            }
+        };
+        runs.push(Run { now: t, time, env: env.clone(), io: gen_io(&mut rng), via_stdin: rng.chance(1, 2) });
+    }
+    C05Scn { doc, offset, runs }
+}
+
+fn run_exec(scn: &C05Scn, r: &Run, text: &str) -> (Fs, Exec) {
+    let d = &scn.doc;
+    let mut fs = Fs::new();
+    let mut argv: Vec<String> = vec!["chiritori".into()];
+    let stdin = if r.via_stdin {
+        StdinSpec::Pipe(text.to_string())
+    } else {
+        fs.insert("src.txt".into(), text.as_bytes().to_vec());
+        argv.push("--filename=src.txt".into());
+        StdinSpec::Tty
+    };
+    if !d.uses_default_delims() {
+        argv.push(format!("--delimiter-start={}", d.ds));
+        argv.push(format!("--delimiter-end={}", d.de));
+    }
+    if d.tl_tag != doc::DEFAULT_TL {
+        argv.push(format!("--time-limited-tag-name={}", d.tl_tag));
+    }
+    if let Some(o) = &scn.offset {
+        argv.push(format!("--time-limited-time-offset={}", o));
+    }
+    let clock = match &r.time {
+        RunTime::Clock { tick_ns } => ClockSpec { sec: r.now.0, nsec: r.now.1, tick_ns: *tick_ns },
+        RunTime::Explicit { zone_off, zulu, decoy } => {
+            argv.push(format!("--time-limited-current={}", reftime::format_rfc3339(r.now.0, r.now.1, *zone_off, *zulu)));
+            decoy.clone()
+        }
+    };
+    (fs, Exec { argv, stdin, env: r.env.clone(), clock, io: r.io.clone() })
+}
+
+/// (parent id, element) pairs in document order
+fn with_parents(doc: &Doc) -> Vec<(Option<u32>, &Elem)> {
+    fn walk<'a>(nodes: &'a [Node], parent: Option<u32>, out: &mut Vec<(Option<u32>, &'a Elem)>) {
+        for n in nodes {
+            if let Node::Elem(e) = n {
+                out.push((parent, e));
+                walk(&e.children, Some(e.id), out);
+            }
+        }
+    }
+    let mut v = Vec::new();
+    walk(&doc.nodes, None, &mut v);
+    v
+}
+
+fn relation(now: (i64, i64), e: i64) -> &'static str {
+    if now == (e, 0) {
+        "T==E"
+    } else if now == (e - 1, 999_999_999) {
+        "T==E-1ns"
+    } else if now == (e, 1) {
+        "T==E+1ns"
+    } else if now.0 == e - 1 {
+        "T in [E-1s,E)"
+    } else if now.0 == e || now.0 == e + 1 {
+        "T in (E,E+2s)"
+    } else if now.0 < e {
+        "T<E"
+    } else {
+        "T>E"
+    }
+}
+
+pub fn run(scn: &C05Scn, stats: &mut RunStats) -> Option<Violation> {
+    let text = scn.doc.render();
+    let offset_str = scn.offset.clone().unwrap_or_else(|| "+00:00".to_string());
+    let off_class = classify_offset(&offset_str);
+    let elems = with_parents(&scn.doc);
+    let fail = |inv: &str, sig: String, detail: String, step: usize| Some(Violation { invariant: inv.to_string(), signature: sig.replace(' ', "_"), detail, step });
+
+    // (envelope first, envelope last, absent set, stdout) per run
+    let mut hist: Vec<((i64, i64), (i64, i64), BTreeSet<u32>, Vec<u8>)> = Vec::new();
+    let mut flipped = false;
+    let mut perturbed = false;
+    for (k, r) in scn.runs.iter().enumerate() {
+        let (mut fs, ex) = run_exec(scn, r, &text);
+        let out = execute(&mut fs, &ex, crate::cli::run);
+        stats.note(format!("run {} now={:?} argv={:?} env={:?} clock={:?}", k, r.now, ex.argv, ex.env, ex.clock));
+        stats.absorb(&format!("run:{}", if r.via_stdin { "stdin" } else { "file" }), &out, &out.stdout);
+        stats.note(format!("   stdout: {:?}", String::from_utf8_lossy(&out.stdout)));
+        if any_soft_fault(&out) {
+            stats.bump("execs_with_soft_fault");
+            perturbed = true;
+        }
+        if r.env.contains_key("TZ") {
+            perturbed = true;
+        }
+        match &out.status {
+            Status::Exit(0) => {}
+            other => {
+                if lib_call(&text, &scn.doc, &offset_str, r.now, &BTreeSet::new(), Mode::Clean, false).is_err() {
+                    stats.unevaluable = true;
+                    stats.bump("unevaluable_library_panics");
+                    return None;
+                }
+                return fail("C05.run_completes", format!("status:{:?}", other).chars().take(50).collect(), format!("run {} ended with {:?}", k, other), k);
+            }
+        }
+        let (first, last) = match &r.time {
+            RunTime::Explicit { .. } => {
+                stats.bump("decoy_clock_fired");
+                perturbed = true;
+                (r.now, r.now)
+            }
+            RunTime::Clock { tick_ns } if *tick_ns == 0 => {
+                stats.bump("clock_freeze_fired");
+                (r.now, r.now)
+            }
+            RunTime::Clock { .. } => {
+                stats.bump("clock_tick_per_read_fired");
+                perturbed = true;
+                (out.clock.first.unwrap_or(r.now), out.clock.last)
+            }
+        };
+        let stdout = String::from_utf8_lossy(&out.stdout).into_owned();
+        let present: BTreeSet<u32> = scn.doc.surviving_ids(&stdout).into_iter().collect();
+        let absent: BTreeSet<u32> = elems.iter().map(|(_, e)| e.id).filter(|id| !present.contains(id)).collect();
+
+        // --- per-run oracle against the reference ---------------------------------
+        for (parent, e) in &elems {
+            if e.kind != Kind::Tl {
+                continue;
+            }
+            if let Some(p) = parent {
+                if absent.contains(p) {
+                    continue; // swallowed by a removed ancestor
+                }
+            }
+            let to_class = classify_to(&e.to);
+            let observed = absent.contains(&e.id);
+            let (must_absent, must_present, rel): (bool, bool, &str) = match (to_class, off_class) {
+                (Class::Invalid, _) | (_, Class::Invalid) => (false, true, "malformed"),
+                (Class::Canonical(w), Class::Canonical(o)) => {
+                    let inst = w - o;
+                    if inst == r.now.0 && r.now.1 == 0 {
+                        stats.bump("probe_boundary_instant_hit_exactly");
+                    }
+                    if (inst - 1, 999_999_999) == r.now {
+                        stats.bump("probe_one_nanosecond_before_expiry");
+                    }
+                    let day = |x: i64| x.div_euclid(86_400);
+                    if o != 0 && day(w) != day(inst) {
+                        stats.bump("probe_offset_moves_expiry_across_date");
+                    }
+                    (reftime::ready_at(inst, first), !reftime::ready_at(inst, last), relation(r.now, inst))
+                }
+                _ => {
+                    stats.bump("grey_zone_judged_by_history_only");
+                    (false, false, "grey")
+                }
+            };
+            if must_absent && !observed {
+                return fail(
+                    "C05.ready_iff_now_ge_to",
+                    format!("kept-but-expired:{}", rel),
+                    format!(
+                        "run {} at now={:?}: element e{} (to={:?}, offset {:?}) is expired by the reference but was kept\n  stdout {:?}",
+                        k, r.now, e.id, e.to, offset_str, stdout
+                    ),
+                    k,
+                );
+            }
+            if must_present && observed {
+                let what = if rel == "malformed" {
+                    format!("removed-malformed:to={:?}:offset={:?}", class_name(to_class), class_name(off_class))
+                } else {
+                    format!("removed-before-expiry:{}", rel)
+                };
+                return fail(
+                    "C05.ready_iff_now_ge_to",
+                    what,
+                    format!(
+                        "run {} at now={:?}: element e{} (to={:?}, offset {:?}) must not be ready but was removed\n  stdout {:?}",
+                        k, r.now, e.id, e.to, offset_str, stdout
+                    ),
+                    k,
+                );
+            }
+        }
+        // --- history oracles ---------------------------------------------------------
+        if let Some((_, prev_last, prev_absent, prev_stdout)) = hist.last() {
+            if *prev_last <= first {
+                if !prev_absent.is_subset(&absent) {
+                    let back: Vec<u32> = prev_absent.difference(&absent).copied().collect();
+                    return fail(
+                        "C05.removed_set_only_grows",
+                        "reappeared".into(),
+                        format!("run {} (now={:?}) kept elements {:?} that an earlier run at an earlier-or-equal instant removed", k, r.now, back),
+                        k,
+                    );
+                }
+                if prev_absent.len() < absent.len() {
+                    flipped = true;
+                }
+            }
+            let (pf, pl) = (hist.last().unwrap().0, hist.last().unwrap().1);
+            if pf == pl && first == last && pf == first {
+                stats.bump("probe_same_instant_different_environment");
+                if *prev_stdout != out.stdout {
+                    return fail(
+                        "C05.same_instant_same_result",
+                        "env-or-spelling-dependence".into(),
+                        format!(
+                            "runs {} and {} use the same instant {:?} but differ\n  {:?}\n  {:?}\n  env {:?} vs {:?}",
+                            k - 1,
+                            k,
+                            first,
+                            String::from_utf8_lossy(prev_stdout),
+                            stdout,
+                            scn.runs[k - 1].env,
+                            r.env
+                        ),
+                        k,
+                    );
+                }
+            }
+        }
+        hist.push((first, last, absent, out.stdout.clone()));
+    }
+    if let (Some(a), Some(b)) = (scn.runs.first(), scn.runs.last()) {
+        stats.sim_seconds = b.now.0 - a.now.0;
+    }
+    stats.nontrivial = flipped && perturbed;
     None
 }
-pub fn shrink_candidates(_s: &C05Scn) -> Vec<C05Scn> {
-    vec![]
+
+fn class_name(c: Class) -> &'static str {
+    match c {
+        Class::Canonical(_) => "canonical",
+        Class::Invalid => "malformed",
+        Class::Grey => "grey",
+    }
 }
-pub fn sample(_s: &C05Scn) -> serde_json::Value {
-    serde_json::Value::Null
+
+pub fn shrink_candidates(s: &C05Scn) -> Vec<C05Scn> {
+    let mut out = Vec::new();
+    if s.runs.len() > 1 {
+        for i in 0..s.runs.len() {
+            let mut c = s.clone();
+            c.runs = vec![s.runs[i].clone()];
+            out.push(c);
+        }
+        for i in 0..s.runs.len() {
+            let mut c = s.clone();
+            c.runs.remove(i);
+            out.push(c);
+        }
+    }
+    for d in s.doc.shrink_candidates() {
+        let mut c = s.clone();
+        c.doc = d;
+        out.push(c);
+    }
+    for (i, r) in s.runs.iter().enumerate() {
+        let mut push = |nr: Run| {
+            if nr != *r {
+                let mut c = s.clone();
+                c.runs[i] = nr;
+                out.push(c);
+            }
+        };
+        let mut nr = r.clone();
+        nr.io = IoPlan::default();
+        push(nr);
+        let mut nr = r.clone();
+        nr.env.clear();
+        push(nr);
+        for k in r.env.keys() {
+            let mut nr = r.clone();
+            nr.env.remove(k);
+            push(nr);
+        }
+        let mut nr = r.clone();
+        nr.time = RunTime::Clock { tick_ns: 0 };
+        push(nr);
+        if let RunTime::Explicit { decoy, .. } = &r.time {
+            let mut nr = r.clone();
+            nr.time = RunTime::Explicit { zone_off: 0, zulu: true, decoy: decoy.clone() };
+            push(nr);
+        }
+        let mut nr = r.clone();
+        nr.via_stdin = true;
+        push(nr);
+        let mut nr = r.clone();
+        nr.now.1 = 0;
+        push(nr);
+    }
+    out
+}
+
+pub fn sample(s: &C05Scn) -> serde_json::Value {
+    let text = s.doc.render();
+    let runs: Vec<serde_json::Value> = s
+        .runs
+        .iter()
+        .map(|r| {
+            let (_, ex) = run_exec(s, r, &text);
+            serde_json::json!({"now": [r.now.0, r.now.1], "argv": ex.argv, "env": ex.env, "clock": [ex.clock.sec, ex.clock.nsec, ex.clock.tick_ns], "via_stdin": r.via_stdin, "io_plan": r.io})
+        })
+        .collect();
+    serde_json::json!({"source": text, "offset": s.offset, "runs": runs})
+}
+
+/// The enumerated tables must classify as intended (checked at worker start).
+pub fn check_tables() {
+    for s in TO_INVALID {
+        assert_eq!(classify_to(&Some(AttrVal::Val(s.to_string()))), Class::Invalid, "TO_INVALID {:?}", s);
+    }
+    for s in TO_GREY {
+        assert_eq!(classify_to(&Some(AttrVal::Val(s.to_string()))), Class::Grey, "TO_GREY {:?}", s);
+    }
+    for s in OFF_INVALID {
+        assert_eq!(classify_offset(s), Class::Invalid, "OFF_INVALID {:?}", s);
+    }
+    for s in OFF_GREY {
+        assert_eq!(classify_offset(s), Class::Grey, "OFF_GREY {:?}", s);
+    }
+    for s in BASES {
+        assert!(parse_to_canonical(s).is_some(), "BASES {:?}", s);
+    }
 }
